@@ -33,3 +33,59 @@ func init() {
 		},
 	})
 }
+
+func init() {
+	register(&PropSpec{
+		ID:        "selftest",
+		Technique: "engine self-test",
+		Quick: func() []eng.Instance {
+			return []eng.Instance{
+				{Name: "selftest/loops", Pkg: "xsync", Func: "VxH_T_loops", Cfg: eng.Config{DefaultUnwind: 8}},
+			}
+		},
+	})
+}
+
+func init() {
+	register(&PropSpec{
+		ID:        "dbg",
+		Technique: "debug",
+		Quick: func() []eng.Instance {
+			return []eng.Instance{
+				{Name: "dbg/Map/Store", Pkg: "xsync", Func: "VxH_Map_step", Args: []int64{1, 1, 1, 1}, Cfg: eng.Config{DefaultUnwind: 8}},
+			}
+		},
+	})
+}
+
+var mapOps = []string{"Load", "Store", "LoadOrStore", "LoadAndStore", "LoadOrCompute", "Compute", "LoadAndDelete", "Delete", "Clear", "Range", "Size"}
+
+type shape struct{ tableLen, chain, minLen int }
+
+func mapStepInstances(prefix, fn string, shapes []shape, ops []int) []eng.Instance {
+	var is []eng.Instance
+	for _, sh := range shapes {
+		for _, op := range ops {
+			is = append(is, eng.Instance{
+				Name: fmt.Sprintf("%s/S(len=%d,chain=%d,min=%d)/%s", prefix, sh.tableLen, sh.chain, sh.minLen, mapOps[op]),
+				Pkg:  "xsync", Func: fn, Args: []int64{int64(op), int64(sh.tableLen), int64(sh.chain), int64(sh.minLen)},
+				Cfg: eng.Config{DefaultUnwind: 8},
+			})
+		}
+	}
+	return is
+}
+
+func init() {
+	allOps := []int{0, 1, 2, 3, 4, 5, 6, 7, 8, 9, 10}
+	register(&PropSpec{
+		ID:        "C11",
+		Technique: "bounded symbolic execution of go/ssa to QF_UFBV: inductive step of every Map/MapOf operation from an arbitrary valid table state (all slot occupancies, hashes, seeds), incl. grow/shrink/Clear inside the step; representation invariant re-established; vs reference map",
+		Bounds:    map[string]interface{}{"shapes(tableLen,chain,minTableLen)": "(1,1,1) (2,1,1) (1,2,1)", "ops_per_step": 1, "unwind_doCompute": 3, "unwind_default": 8},
+		Stubs:     commonStubs,
+		Outside:   []string{"tables longer than 2 buckets before / 4 after the step", "chains longer than 2 buckets in the pre-state", "size hints (constructor arithmetic) - separate harness"},
+		Quick: func() []eng.Instance {
+			return mapStepInstances("C11/Map/step", "VxH_Map_step", []shape{{1, 1, 1}, {2, 1, 1}, {1, 2, 1}}, allOps)
+		},
+	})
+}
